@@ -90,10 +90,13 @@ MEmplace(k, d, fresh) ==
   /\ Emplace(k, d, fresh)
   /\ keys' = IF IsBaseKind(k) THEN (fresh :> {}) @@ keys ELSE keys
   /\ sdata' = IF k = "structured" THEN (fresh :> {}) @@ sdata ELSE sdata
+\* a structure over the erased constituent is no longer correct: its data is dropped (it could neither be checked nor saved)
 MErase(u) ==
   /\ Erase(u)
   /\ keys' = [x \in DOMAIN keys \ {u} |-> keys[x]]
-  /\ sdata' = [x \in DOMAIN sdata \ {u} |-> sdata[x]]
+  /\ sdata' = IF u \in Ids /\ u \notin DOMAIN trk
+               THEN [x \in DOMAIN sdata \ {u} |-> IF cst[u].alias \in DefMentions(cst[x]) THEN {} ELSE sdata[x]]
+               ELSE sdata
 MSetExpression(u, d) ==
   /\ SetExpression(u, d)
   /\ keys' = keys
